@@ -2,7 +2,8 @@
    evaluated on the generated corpus on every run), and the shape of the trees it builds there (`gshape`).
    Clean = names that need no escaping: the TypeScript name of every definition and parameter is declarable,
    property names / variant names / tag keys (after renaming) contain no quote, backslash or line break and
-   property names are not empty; `export_to` paths likewise; no `type = ".."` override (user text) and no `flatten`.  Everything else
+   property names are not empty; `export_to` paths likewise; no `type = ".."` override (user text); `flatten` of structs that have
+   named fields of their own and flatten nothing themselves (the common use).  Everything else
    is free: shapes, generics, defaults, `as`, `inline`, `optional`, all four enum representations, `skip`,
    `untagged` variants, documentation of any content.  Definitions only. *)
 From TsRs Require Import Base.Str Base.Outcome Model.Case Model.TsAst Model.Rust Model.Gen Spec.TsGrammar Spec.TsSyn.
@@ -14,7 +15,16 @@ Variable is_upper is_alnum is_numeric : char -> bool.
 
 Definition is_objb (t : tsty) : bool := match t with TObj _ _ => true | _ => false end.
 
-(* syn_ok, plus the merge marker around an object literal (what named.rs builds when nothing is flattened) *)
+(* a non-empty struct object, bare or under the merge marker: what a struct without flattened fields hands to a host *)
+Definition is_sobj (t : tsty) : bool :=
+  match t with
+  | TObj OStruct (_ :: _) => true
+  | TMerged (TObj OStruct (_ :: _)) => true
+  | _ => false
+  end.
+
+(* syn_ok, plus the merge marker around an object literal (what named.rs builds when nothing is flattened), around the
+   operands `own object & flattened struct & ..`, or around a lone flattened struct *)
 Fixpoint gshape (t : tsty) : bool :=
   match t with
   | TPrim n | TVar n | TVarF n => type_nameb is_alnum is_numeric n
@@ -26,7 +36,13 @@ Fixpoint gshape (t : tsty) : bool :=
   | TMapped k v | TResult k v => gshape k && gshape v
   | TUnion ts | TInter ts => negb (is_nil ts) && forallb gshape ts
   | TLit s => cleanb s
-  | TMerged u => is_objb u && gshape u
+  | TMerged u =>
+      match u with
+      | TObj _ _ => gshape u
+      | TInter l => negb (is_nil l) && forallb (fun x => is_sobj x && gshape x) l   (* own object and flattened struct objects *)
+      | TUnwrap x => is_sobj x && gshape x                                          (* a lone flattened struct *)
+      | _ => false
+      end
   | TRaw _ | TUnwrap _ => false
   end.
 
@@ -42,10 +58,30 @@ Fixpoint rty_clean (t : rty) : bool :=
   end.
 
 Definition no_text (o : option str) : bool := match o with None => true | Some _ => false end.
+
+Variable R : env.
+
+(* a struct that can be flattened into a host: named fields, none of them flattened or overridden away, at least one
+   property (a live field or the tag), no `as` / `type` on the container *)
+Definition flat_simple (d : typedef) : bool :=
+  match d with
+  | DStruct a (SNamed fs) =>
+      no_text (c_type a) && match c_as a with None => true | Some _ => false end &&
+      forallb (fun f => f_skip f || negb (f_flatten f)) fs &&
+      (match c_tag a with Some _ => true | None => false end || existsb (fun f => negb (f_skip f)) fs)
+  | _ => false
+  end.
+Fixpoint flat_target (t : rty) : bool :=
+  match t with
+  | RWrap u => flat_target u
+  | RNamed id args => match lookup R id with Some d => flat_simple d && forallb rty_clean args | None => false end
+  | _ => false
+  end.
 Definition key_okb (k : str) : bool := negb (is_nil k) && cleanb k.
 
 Definition field_cleanb (ra : option rule) (f : field) : bool :=
-  f_skip f || (no_text (f_type f) && negb (f_flatten f) && rty_clean (f_ty f) && key_okb (field_key ra f)).
+  f_skip f || (no_text (f_type f) &&
+               if f_flatten f then flat_target (f_ty f) else rty_clean (f_ty f) && key_okb (field_key ra f)).
 Definition tfield_cleanb (f : field) : bool := f_skip f || (no_text (f_type f) && rty_clean (f_ty f)).
 
 Definition shape_cleanb (ra : option rule) (s : shape) : bool :=
@@ -81,5 +117,7 @@ Definition def_cleanb (d : typedef) : bool :=
       end
   end.
 
-Definition clean_envb (R : env) : bool := forallb (fun p => def_cleanb (snd p)) R.
 End C.
+
+Definition clean_envb (is_upper is_alnum is_numeric : char -> bool) (R : env) : bool :=
+  forallb (fun p => def_cleanb is_upper is_alnum is_numeric R (snd p)) R.
